@@ -405,6 +405,13 @@ def np_array(ex, args, kw):
         return NDArray([], lambda idx: v, dtype_of(dt, "f8"))
     else:
         raise Unsupported(f"np.array({typetag(v)})")
+    if isinstance(dt, str) and dt in ("i", "int32", "i4", "intc", "<i4"):
+        # a 32-bit integer array: numpy (2.x) refuses a Python integer that does not fit (OverflowError); values that fit
+        # behave as integers (the model keeps them mathematical from here on)
+        for x in items:
+            if is_z3(x) or isinstance(x, int):
+                ex.ctx.check_or_raise(zand(to_z3(x) >= -2 ** 31, to_z3(x) < 2 ** 31), "OverflowError", "Python integer out of bounds for int32")
+        dt = "int"
     d = dtype_of(dt, None)
     if not items and d is not None:
         return NDArray([0], lambda idx: 0, d)        # np.array([], dtype=...): empty, but of that element type
